@@ -67,6 +67,7 @@ func (sr *liveSwitchReader) Read(p []byte) (n int, err error) {
 	sr.Lock()
 	// Check if closeNotifier was created prior to this Read call & start it
 	if sr.pr != nil && sr.pipeCopyF != nil {
+		vevent("sr.switch", sr)
 		go sr.pipeCopyF()
 		sr.r = sr.pr
 		sr.pr = nil
@@ -96,6 +97,7 @@ func (c *conn) closeNotify() <-chan struct{} {
 	defer c.mu.Unlock()
 	if c.closeNotifyc == nil {
 		c.closeNotifyc = make(chan struct{})
+		vevent("cn.create", c, c.clientGone)
 		if c.clientGone {
 			// The connection has already terminated.
 			close(c.closeNotifyc)
@@ -124,6 +126,7 @@ func (c *conn) closeNotify() <-chan struct{} {
 					err = io.EOF
 				}
 				pw.CloseWithError(err)
+				vevent("cp.end", c, err)
 				c.notifyClientGone()
 			}
 			c.sr.Unlock()
@@ -136,6 +139,7 @@ func (c *conn) notifyClientGone() {
 	c.mu.Lock()
 	defer c.mu.Unlock()
 	if !c.clientGone {
+		vevent("cn.gone", c, c.closeNotifyc != nil)
 		c.clientGone = true
 		if c.closeNotifyc != nil {
 			close(c.closeNotifyc) // unblock readers
@@ -148,6 +152,7 @@ func (c *conn) notifyClientGone() {
 // in which case nobody else would) and closes the read end of the pipe so
 // that a copier goroutine blocked in a pipe write can exit.
 func (c *conn) finish() {
+	vevent("serve.exit", c)
 	c.sr.Lock()
 	if pr, ok := c.sr.r.(*io.PipeReader); ok {
 		pr.Close()
@@ -233,7 +238,9 @@ func (c *conn) serve() {
 			break
 		}
 		// Handle messages in this goroutine.
+		vevent("serve.msg", c)
 		serverHandler{c.server}.ServeDIAM(c.writer, m)
+		vevent("serve.ret", c)
 	}
 }
 
